@@ -147,6 +147,20 @@ reg('C18', 'exploration',
     'instrumented primitives are self-tested in every run (mutual '
     'exclusion, re-entrancy, lost notify and ABBA deadlock must be found).')
 
+reg('C20', 'fault_enumeration',
+    'exhaustive fault injection at set-up: one needed name removed (or one '
+    'array name misspelt) per run of the real AccelerationEval / SPHCompiler '
+    '/ code generation, observing which stage raises and what the message '
+    'names',
+    'Every (class, needed name, array) fault of all 288 shipped equation '
+    'classes and 36 stepper classes, plus generated equations, is injected: '
+    'about 5700 faults, each must be rejected with a RuntimeError naming the '
+    'class and the missing name before anything is compiled.',
+    'Needed names are read off the hook signatures (d_*/s_* arguments; u,v,w '
+    '/ rho for VIJ / RHOIJ / RHOIJ1); x, y, z, h, tag, gid, pid are never '
+    'removed; set-up is stopped after code generation, so "never reaches '
+    'execution" is decided by "raised before compile".')
+
 _pending = {
 }
 for _i in range(1, 21):
